@@ -770,14 +770,14 @@ func runJSON(o *hx.Opts, res *hx.Result, r *hx.Rand) {
 		parsed := functions.ParseJSON(env, types.NewXText(doc))
 		written := functions.JSON(env, parsed)
 
+		// the class of a failure is decided by the content of the document (a document with both kinds of
+		// unrepresentable content is filed under the first)
 		class := "json-roundtrip"
 		switch {
-		case f.bigExp > 0 && f.surrogate == 0:
+		case f.bigExp > 0:
 			class = "json-roundtrip:number-exponent-beyond-1000"
-		case f.surrogate > 0 && f.bigExp == 0:
+		case f.surrogate > 0:
 			class = "json-roundtrip:lone-surrogate-escape"
-		case f.surrogate > 0 && f.bigExp > 0:
-			class = "json-roundtrip:lone-surrogate-escape+number-exponent-beyond-1000"
 		}
 
 		res.OracleChecks++
